@@ -76,6 +76,8 @@ class LinearStructured(Facet):
             return
         rec.label("rep:" + rep, f"gene_length:{case['gene_length']}")
         snap = {}
+        made = []  # (parent index, child index, the parent's genes when the child was made)
+        import copy as _copy
 
         def view(i):
             return genes_view(rep, w.pool[i])
@@ -106,6 +108,7 @@ class LinearStructured(Facet):
                 rec.label(f"mutate@{rep}:hamming={h if h is None or h < 2 else '2+'}")
                 if h:
                     rec.nontrivial((rep, "mut", _short(p), _short(c)))
+                made.append((ev.inputs[0], ev.outputs[0], _copy.deepcopy(p)))
             elif ev.kind == "crossover":
                 p1, p2 = view(ev.inputs[0]), view(ev.inputs[1])
                 for which, oi in enumerate(ev.outputs):
@@ -122,6 +125,17 @@ class LinearStructured(Facet):
                             pass
             elif ev.kind == "map":
                 snap[ev.inputs[0]] = view(ev.inputs[0])
+            # a mutant stays what it was: whatever happens later to its parent, its siblings or itself
+            # being used as a parent, it still differs from the genes its parent had in at most one locus
+            if rep != "dsge":
+                for pi, ci, p0 in made:
+                    h2 = hamming(p0, view(ci))
+                    if h2 is None or h2 > 1:
+                        rec.fail(
+                            f"C06/mutation/{rep}/earlier-mutant-changed-by-a-later-operation",
+                            f"after {ev.op}: genotype #{ci}, made by mutating #{pi}, now differs from its parent's genes at that time in {h2} loci (a later operation wrote into gene lists it shares); grammar {spec_str(case['spec'])}",
+                        )
+                        return
 
         rec.sample({"spec": spec_str(case["spec"]), "rep": rep, "gene_length": case["gene_length"], "ops": case["ops"]})
         w.run(obs)
